@@ -75,6 +75,17 @@ module Nat =
   | O -> n0
   | S u -> u
 
+  (** val eqb : nat -> nat -> bool **)
+
+  let rec eqb n0 m =
+    match n0 with
+    | O -> (match m with
+            | O -> true
+            | S _ -> false)
+    | S n' -> (match m with
+               | O -> false
+               | S m' -> eqb n' m')
+
   (** val leb : nat -> nat -> bool **)
 
   let rec leb n0 m =
@@ -330,6 +341,17 @@ module Coq_Pos =
 
 module N =
  struct
+  (** val compare : n -> n -> comparison **)
+
+  let compare n0 m =
+    match n0 with
+    | N0 -> (match m with
+             | N0 -> Eq
+             | Npos _ -> Lt)
+    | Npos n' -> (match m with
+                  | N0 -> Gt
+                  | Npos m' -> Coq_Pos.compare n' m')
+
   (** val eqb : n -> n -> bool **)
 
   let eqb n0 m =
@@ -340,6 +362,13 @@ module N =
     | Npos p -> (match m with
                  | N0 -> false
                  | Npos q0 -> Coq_Pos.eqb p q0)
+
+  (** val ltb : n -> n -> bool **)
+
+  let ltb x y =
+    match compare x y with
+    | Lt -> true
+    | _ -> false
  end
 
 module Z =
@@ -716,6 +745,19 @@ let qopp x =
 
 let qminus x y =
   qplus x (qopp y)
+
+(** val qinv : q -> q **)
+
+let qinv x =
+  match x.qnum with
+  | Z0 -> { qnum = Z0; qden = XH }
+  | Zpos p -> { qnum = (Zpos x.qden); qden = p }
+  | Zneg p -> { qnum = (Zneg x.qden); qden = p }
+
+(** val qdiv : q -> q -> q **)
+
+let qdiv x y =
+  qmult x (qinv y)
 
 (** val qlt_le_dec : q -> q -> bool **)
 
@@ -1472,3 +1514,204 @@ let get_infected g tau gamma i0 r0 =
 
 let get_infected_det g delay dur i0 r0 =
   out_component (perc_build g delay dur) r0 i0
+
+(** val qfloor : q -> z **)
+
+let qfloor x =
+  let { qnum = n0; qden = d } = x in Z.div n0 (Zpos d)
+
+type 'a bsamp =
+| BRet of 'a
+| BFail of err
+| BExpo of q * (q -> 'a bsamp)
+| BSample of key list * nat * (key list -> 'a bsamp)
+| BBinom of nat * q * xtime * (nat -> 'a bsamp)
+
+(** val bbind : 'a1 bsamp -> ('a1 -> 'a2 bsamp) -> 'a2 bsamp **)
+
+let rec bbind m f =
+  match m with
+  | BRet a -> f a
+  | BFail e -> BFail e
+  | BExpo (r, k) -> BExpo (r, (fun d -> bbind (k d) f))
+  | BSample (pop, n0, k) -> BSample (pop, n0, (fun l -> bbind (k l) f))
+  | BBinom (n0, tau, d, k) -> BBinom (n0, tau, d, (fun i -> bbind (k i) f))
+
+type bcall =
+| BCExpo of q
+| BCSample of key list * nat
+| BCBinom of nat * q * xtime
+
+(** val binom_possible : nat -> q -> xtime -> nat -> bool **)
+
+let binom_possible n0 tau d k =
+  (&&) (Nat.leb k n0)
+    (match d with
+     | Some x ->
+       if qeqb (qmult tau x) { qnum = Z0; qden = XH }
+       then Nat.eqb k O
+       else true
+     | None -> Nat.eqb k n0)
+
+(** val bexec :
+    'a1 bsamp -> q list -> bcall list -> 'a1 result * bcall list **)
+
+let rec bexec m ds tr =
+  match m with
+  | BRet a -> ((Ok a), (rev tr))
+  | BFail e -> ((Err e), (rev tr))
+  | BExpo (r, k) ->
+    if qeqb r { qnum = Z0; qden = XH }
+    then ((Err ZeroDivision), (rev ((BCExpo r) :: tr)))
+    else (match ds with
+          | [] -> ((Err OutOfDraws), (rev tr))
+          | d :: ds' ->
+            if qltb d { qnum = Z0; qden = XH }
+            then ((Err OutOfDraws), (rev tr))
+            else bexec (k d) ds' ((BCExpo r) :: tr))
+  | BSample (pop, n0, k) ->
+    if Nat.ltb (length pop) n0
+    then ((Err ValueErr), (rev ((BCSample (pop, n0)) :: tr)))
+    else (match ds with
+          | [] -> ((Err OutOfDraws), (rev tr))
+          | d :: ds' ->
+            bexec (k (firstn n0 (rotate (rank d) pop))) ds' ((BCSample (pop,
+              n0)) :: tr))
+  | BBinom (n0, tau, dd, k) ->
+    (match ds with
+     | [] -> ((Err OutOfDraws), (rev tr))
+     | d :: ds' ->
+       if binom_possible n0 tau dd (rank d)
+       then bexec (k (rank d)) ds' ((BCBinom (n0, tau, dd)) :: tr)
+       else ((Err OutOfDraws), (rev tr)))
+
+(** val trunc_exp : q -> xtime -> q result **)
+
+let trunc_exp x = function
+| Some t0 ->
+  if qltb x t0
+  then Ok x
+  else if qeqb t0 { qnum = Z0; qden = XH }
+       then Err ZeroDivision
+       else Ok (qminus x (qmult (inject_Z (qfloor (qdiv x t0))) t0))
+| None -> Ok x
+
+(** val ninsert : n -> n list -> n list **)
+
+let rec ninsert x l = match l with
+| [] -> x :: []
+| h :: t -> if N.ltb x h then x :: l else h :: (ninsert x t)
+
+(** val nsort : n list -> n list **)
+
+let nsort l =
+  fold_right ninsert [] l
+
+type bprovider = node -> node list -> ((node * xtime) list * xtime) bsamp
+
+(** val draw_trunc :
+    q -> xtime -> node list -> (node * xtime) list -> ((node * xtime) list ->
+    'a1 bsamp) -> 'a1 bsamp **)
+
+let rec draw_trunc tau dur rcp acc k =
+  match rcp with
+  | [] -> k (rev acc)
+  | v :: t ->
+    BExpo (tau, (fun x ->
+      match trunc_exp x dur with
+      | Ok y -> draw_trunc tau dur t ((v, (Some y)) :: acc) k
+      | Err e -> BFail e))
+
+(** val const_provider : graph -> q -> q -> bprovider **)
+
+let const_provider g tau gamma u sus =
+  let rr = rec_rate g gamma u in
+  let k = fun dur -> BBinom ((length sus), tau, dur, (fun n0 -> BSample
+    ((map knode (nsort sus)), n0, (fun ks ->
+    draw_trunc tau dur (concat ks) [] (fun td -> BRet (td, dur))))))
+  in
+  if qltb { qnum = Z0; qden = XH } rr
+  then BExpo (rr, (fun d -> k (Some d)))
+  else k None
+
+(** val blift : 'a1 result -> ('a1 -> 'a2 bsamp) -> 'a2 bsamp **)
+
+let blift r k =
+  match r with
+  | Ok a -> k a
+  | Err e -> BFail e
+
+(** val bgloop :
+    graph -> q -> xtime -> bprovider -> bool -> nat -> nat -> est ->
+    (simout * (node * node option) list) bsamp **)
+
+let rec bgloop g tmin tmax prov full n0 fuel s =
+  match s.qu with
+  | [] -> blift (finish g tmin full n0 s) (fun x -> BRet x)
+  | e :: q' ->
+    (match fuel with
+     | O -> BFail OutOfFuel
+     | S f ->
+       let s1 = set_qu s q' in
+       (match e.qe with
+        | ETrans (src, tgt) ->
+          if N.eqb (s1.stat tgt) stS
+          then let sus = sus_nbrs g (fupdN s1.stat tgt stI) tgt in
+               bbind (prov tgt sus) (fun tr ->
+                 bgloop g tmin tmax prov full n0 f
+                   (apply_inf fifo tmax e.qt src tgt (fst tr) (snd tr) [] s1))
+          else bgloop g tmin tmax prov full n0 f s1
+        | ERec u -> bgloop g tmin tmax prov full n0 f (apply_rec e.qt u s1)))
+
+(** val fast_sir_const :
+    graph -> q -> q -> node list option -> node list option -> q option -> q
+    -> xtime -> bool -> nat -> (simout * (node * node option) list) bsamp **)
+
+let fast_sir_const g tau gamma i0 r0 rho tmin tmax full fuel =
+  match rho with
+  | Some _ ->
+    (match i0 with
+     | Some _ -> BFail EoNError
+     | None ->
+       (match r0 with
+        | Some _ -> BFail EoNError
+        | None ->
+          let r0l = match r0 with
+                    | Some l -> l
+                    | None -> [] in
+          let go = fun i0l ->
+            bgloop g tmin tmax (const_provider g tau gamma) full (length i0l)
+              fuel (init_state fifo g tmin tmax i0l r0l)
+          in
+          (match i0 with
+           | Some l -> go l
+           | None ->
+             let n0 =
+               match rho with
+               | Some r -> round_half_even (qmult (qnat (length g.gnodes)) r)
+               | None -> Zpos XH
+             in
+             if Z.ltb n0 Z0
+             then BFail ValueErr
+             else BSample ((map knode g.gnodes), (Z.to_nat n0), (fun ks ->
+                    go (concat ks))))))
+  | None ->
+    let r0l = match r0 with
+              | Some l -> l
+              | None -> [] in
+    let go = fun i0l ->
+      bgloop g tmin tmax (const_provider g tau gamma) full (length i0l) fuel
+        (init_state fifo g tmin tmax i0l r0l)
+    in
+    (match i0 with
+     | Some l -> go l
+     | None ->
+       let n0 =
+         match rho with
+         | Some r -> round_half_even (qmult (qnat (length g.gnodes)) r)
+         | None -> Zpos XH
+       in
+       if Z.ltb n0 Z0
+       then BFail ValueErr
+       else BSample ((map knode g.gnodes), (Z.to_nat n0), (fun ks ->
+              go (concat ks))))
